@@ -127,6 +127,12 @@ func evSGR(code, x, y int, release bool) event {
 	return event{kind: "sgr", bytes: b, want: descMouse(code, x-1, y-1, true, release)}
 }
 
+// evSGRRaw: an SGR report with its parameters spelled as given (leading zeros, huge numbers)
+func evSGRRaw(code, x, y string, fin byte, c, xv, yv int) event {
+	b := []byte("\x1b[<" + code + ";" + x + ";" + y + string(fin))
+	return event{kind: "sgr", bytes: b, want: descMouse(c, xv-1, yv-1, true, fin == 'm')}
+}
+
 func evX10(cb, cx, cy byte) event {
 	b := []byte{0x1b, '[', 'M', cb, cx, cy}
 	return event{kind: "x10", bytes: b, want: descMouse(int(cb)-32, int(cx)-33, int(cy)-33, false, false)}
